@@ -68,12 +68,12 @@ func newEngine(w *World) *Engine {
 	e.sc.add("(declare-sort F64 0)")
 	e.sc.add("(declare-const f64_zero F64)")
 	e.sc.add("(declare-const str_empty Str)")
-	e.sc.add("(declare-fun str.len (Str) (_ BitVec 64))")
-	e.sc.add("(assert (= (str.len str_empty) (_ bv0 64)))")
-	e.sc.add("(declare-fun str.id (Str) (_ BitVec 32))")
-	e.sc.add("(assert (= (str.id str_empty) (_ bv1 32)))")
-	e.sc.add("(assert (forall ((s Str)) (bvsge (str.len s) (_ bv0 64))))")
-	e.sc.declared["str.len"] = ""
+	e.sc.add("(declare-fun gs_len (Str) (_ BitVec 64))")
+	e.sc.add("(assert (= (gs_len str_empty) (_ bv0 64)))")
+	e.sc.add("(declare-fun gs_id (Str) (_ BitVec 32))")
+	e.sc.add("(assert (= (gs_id str_empty) (_ bv1 32)))")
+	e.sc.add("(assert (forall ((s Str)) (bvsge (gs_len s) (_ bv0 64))))")
+	e.sc.declared["gs_len"] = ""
 	e.lits[""] = "str_empty"
 	e.litOrder = append(e.litOrder, "")
 	return e
@@ -110,8 +110,8 @@ func (e *Engine) strLit(s string) string {
 	e.sc.declared[name] = SStr
 	e.sc.add(fmt.Sprintf("(declare-const %s Str)", name))
 	// distinct from every other literal (injective numbering), and its length is known
-	e.sc.add(fmt.Sprintf("(assert (= (str.id %s) (_ bv%d 32)))", name, len(e.litOrder)))
-	e.sc.add(fmt.Sprintf("(assert (= (str.len %s) %s))", name, bvLit(uint64(len(s)), 64)))
+	e.sc.add(fmt.Sprintf("(assert (= (gs_id %s) (_ bv%d 32)))", name, len(e.litOrder)))
+	e.sc.add(fmt.Sprintf("(assert (= (gs_len %s) %s))", name, bvLit(uint64(len(s)), 64)))
 	return name
 }
 
